@@ -410,6 +410,18 @@ func (s *Solver) checkIncOn(kind string, pc []*Term, extra []*Term, wantModel []
 	st := gStats[kind]
 	atomic.AddInt64(&st.Queries, 1)
 	atomic.AddInt64(&st.Nanos, int64(time.Since(t0)))
+	if d := time.Since(t0); d > 3*time.Second && os.Getenv("GOSYM_SLOW") != "" {
+		var xs []string
+		for _, e := range extra {
+			xs = append(xs, s.in.Show(e))
+		}
+		fmt.Fprintf(os.Stderr, "SLOW %.1fs %s reply=%s pc=%d extra=%v\n", d.Seconds(), kind, rep, len(pc), xs)
+		if f, ferr := os.CreateTemp("", "slowq*.smt2"); ferr == nil {
+			s.dumpQuery(f, pc, extra)
+			f.Close()
+			fmt.Fprintf(os.Stderr, "   dumped %s\n", f.Name())
+		}
+	}
 	res := Unknown
 	if err == nil {
 		switch {
@@ -591,4 +603,17 @@ func parseGetValue(r string, out map[string]string) {
 			out[pair.list[0].text()] = pair.list[1].text()
 		}
 	}
+}
+
+// dumpQuery writes a self-contained SMT-LIB2 file for pc ∧ extra.
+func (s *Solver) dumpQuery(w io.Writer, pc, extra []*Term) {
+	p := &Proc{defined: map[int]bool{}, decl: map[string]bool{}}
+	var sb strings.Builder
+	sb.WriteString("(set-logic ALL)\n")
+	for _, c := range append(append([]*Term{}, pc...), extra...) {
+		r := s.define(p, c, &sb)
+		sb.WriteString("(assert " + r + ")\n")
+	}
+	sb.WriteString("(check-sat)\n")
+	io.WriteString(w, sb.String())
 }
